@@ -56,6 +56,9 @@ def tolerance(adapter, ref: Fraction) -> Fraction:
 
 def observe(ctx, snapshot):
     """Reference valuation from raw fields, taken in after_bar (after update(), right before the actuator records the bar)."""
+    from mc.worlds import siblings
+
+    siblings.churn(ctx.index[ctx.bar], {a.kind for a in ctx.adapters})  # the other instances alive in the process are used once more right before the bar is valued
     row = ctx.price_row()
     wallet = sum((F(v) * F(row[k]) for k, v in ctx.wallet().items()), Fraction(0))
     markets = {}
